@@ -801,6 +801,19 @@ func Corpus() []Case {
 				{Path: "/a/x/b", OK: []int{1, 2, 3}},
 			},
 		},
+		{ // one free-wildcard node, other key names (fix 20f92b3 / C03-F3): rejected like at a leaf
+			Adds: []Add{
+				A("/:a/*c", 1, 1, true), A("/:b/*c", 2, 1, true), A("/:a/*d", 3, 1, true), A("/:a/*c", 4, 1, false),
+				A("/x/*r", 5, 5, true), A("/x/*r", 6, 5, true), A("/x/*s", 7, 5, true),
+			},
+			Lookups: []Lookup{
+				{Path: "/1/2/3", OK: []int{1, 2, 3, 4}},
+				{Path: "/1/2/3", OK: []int{2, 3, 4}},
+				{Path: "/1/2", OK: []int{2, 3}},
+				{Path: "/x/y", OK: []int{6, 7}},
+				{Path: "/x/y", OK: []int{7}},
+			},
+		},
 		{ // malformed expressions and splits inside tokens
 			Adds: []Add{
 				A("/a/*x/b", 1, 1, true), A("/abc", 2, 2, true), A("/abd", 3, 3, false),
